@@ -3,11 +3,13 @@
    Mirrors, as written in the Go sources:
      pkg/istructsmem/idgenerator.go        implIIDGenerator.NextID / UpdateOnSync (uint64 arithmetic)
      pkg/istructsmem/event-types.go        eventType.regenerateIDs = objectType.regenerateIDs (argument tree,
-                                           own plan, missing key -> 0) then cudType.regenerateIDs (own plan,
-                                           missing key -> value kept)
+                                           own plan, missing key -> 0) then cudType.regenerateIDs (plan =
+                                           argument's plan + own entries, missing key -> value kept)
      pkg/istructsmem/validation.go         validateEventIDs (the ID rules only)
      pkg/processors/command/impl.go        recovery: UpdateOnSync over new CUD ids, then the argument tree,
                                            of every logged event of the workspace
+   Three flags taken from the source by the translator select the code before/after the repairs of F12, F41,
+   F42 (regenerate_gen / update_on_sync_gen); the instances used by agrees follow the current source.
    The argument tree is given flattened in pre-order (the order of objectType.forEach); r_parent of an
    argument row is the ID of its tree parent (what validateObject enforces/restores). *)
 From Coq Require Import List NArith Bool.
@@ -23,7 +25,10 @@ Definition is_reserved (id : N) : bool := (c04_max_raw_id <? id) && (id <=? c04_
 
 (* ---- generator ---- *)
 Definition next_id (g : N) : N * N := (g, u64 (g + 1)).
-Definition update_on_sync (g id : N) : N := if g <=? id then u64 (id + 1) else g.
+(* [guard] = "UpdateOnSync ignores a syncID whose successor does not fit in uint64" (before fix cf81abbbf: no guard) *)
+Definition update_on_sync_gen (guard : bool) (g id : N) : N :=
+  if (g <=? id) && (negb guard || (id + 1 <? two64)) then u64 (id + 1) else g.
+Definition update_on_sync := update_on_sync_gen c04_update_on_sync_guarded.
 
 (* ---- rows, events ---- *)
 (* r_single: 0, or the registry ID of the row's singleton type (input: the harness reads it from
@@ -49,7 +54,7 @@ Definition sub_arg (p : plan) (v : N) : N :=
 Definition sub_cud (p : plan) (v : N) : N :=
   if is_raw v then match plan_get p v with Some x => x | None => v end else v.
 
-(* first pass over the argument tree; [au] = "the pass calls UpdateOnSync for explicit IDs" (as written: no) *)
+(* first pass over the argument tree; [au] = "the pass calls UpdateOnSync for explicit IDs" (before the repair of F41: no) *)
 Fixpoint arg_assign (au : bool) (g : N) (rows : list row) : N * list row * plan :=
   match rows with
   | [] => (g, [], [])
@@ -78,7 +83,7 @@ Fixpoint cud_assign (g : N) (rows : list row) : N * list row * plan * list (N * 
         let '(g', t', p, rep) := cud_assign (u64 (g + 1)) t in (g', set_id r g :: t', (r_id r, g) :: p, (r_id r, g) :: rep)
   end.
 
-(* [ps] = "the CUD pass starts from the argument's plan" (as written: no, two independent plans) *)
+(* [ps] = "the CUD pass starts from the argument's plan" (before the repair of F12: no, two independent plans) *)
 Definition regenerate_gen (au ps : bool) (g : N) (ev : event) : N * event * list (N * N) :=
   let '(g1, arg1, pa) := arg_assign au g (e_arg ev) in
   let '(g2, cr1, pc, rep) := cud_assign g1 (e_creates ev) in
@@ -224,11 +229,13 @@ Fixpoint rows_ok (mu : list (N * N)) (ins sts : list row) : bool :=
   | _, _ => false
   end.
 
-(* the (raw, storage) pairs the client must be told: every declared raw ID of a non-singleton row *)
-Fixpoint expected_newids (ins sts : list row) : list (N * N) :=
+(* the (raw, storage) pairs the client must be told: every declared raw ID, except those of singleton creates
+   ([singles] = true: rows with a registry ID are skipped) *)
+Fixpoint expected_newids (singles : bool) (ins sts : list row) : list (N * N) :=
   match ins, sts with
   | i :: ins', s :: sts' =>
-      if is_raw (r_id i) && (r_single i =? 0) then (r_id i, r_id s) :: expected_newids ins' sts' else expected_newids ins' sts'
+      if is_raw (r_id i) && (negb singles || (r_single i =? 0)) then (r_id i, r_id s) :: expected_newids singles ins' sts'
+      else expected_newids singles ins' sts'
   | _, _ => []
   end.
 
@@ -244,7 +251,8 @@ Definition subst_ok (ev : event) (o : obs) : bool :=
   Nat.eqb (length (o_arg o)) (length (e_arg ev)) && Nat.eqb (length (o_creates o)) (length (e_creates ev))
   && forallb (fun p => storage_id (snd p)) mu
   && rows_ok mu ins sts && rows_ok mu (e_updates ev) (o_updates o)
-  && list_eqb pair_eqb (sort_pairs (expected_newids ins sts)) (sort_pairs (o_newids o))
+  && list_eqb pair_eqb (sort_pairs (expected_newids false (e_arg ev) (o_arg o) ++ expected_newids true (e_creates ev) (o_creates o)))
+                       (sort_pairs (o_newids o))
   && rows_eqb (o_creates o) (o_recs o).
 
 (* freshness: generated IDs are user IDs (not null, raw or reserved), pairwise distinct, and none was ever
